@@ -191,6 +191,8 @@ exec_destroy (pipecmd_t p)
 
     pipecmd_destroy (p);
 
+    if (WIFSIGNALED (status))
+        return (128 + WTERMSIG (status));
     return (WEXITSTATUS (status));
 }
 
